@@ -14,6 +14,7 @@ import tempfile
 from concurrent.futures import ThreadPoolExecutor
 
 VERIF = os.path.dirname(os.path.dirname(os.path.abspath(__file__)))
+CAP = 28   # mutants per property and run (each needs a scratch copy, a fact extraction and a check run)
 
 
 def catalogue(pid):
@@ -26,8 +27,11 @@ def catalogue(pid):
         m = json.load(open(mp))
         exp = m.get('caught_by') or m.get('expected_caught_by') or []
         if pid in exp:
-            out.append((m.get('id', os.path.basename(d)), pp))
-    return out
+            own = m.get('property') == pid or os.path.basename(d).startswith(pid + '_') or (m.get('expected_caught_by') or [None])[0] == pid
+            out.append((0 if own else 1, m.get('id', os.path.basename(d)), pp))
+    # mutants written for this property first, then those of sibling properties this check also catches; bounded
+    out.sort()
+    return [(mid, pp) for (_, mid, pp) in out[:CAP]]
 
 
 def run_one(args):
@@ -55,7 +59,7 @@ def run_one(args):
         shutil.rmtree(scratch, ignore_errors=True)
 
 
-def run(pid, repo='/repo', jobs=4):
+def run(pid, repo="/repo", jobs=8):
     cat = catalogue(pid)
     res = []
     with ThreadPoolExecutor(max_workers=jobs) as ex:
